@@ -65,8 +65,8 @@ def map_exposed(trace):
     t = Taint()
     for ev in trace[1:]:
         if ev.get("ev") == "call" and t.step(ev["a"]):
-            return True
-    return False
+            return "merge-shares-diff"
+    return None
 
 
 def map_class(rj):
@@ -120,7 +120,11 @@ def conv_known(src, to):
 
 
 def conv_exposed(trace):
-    return any(ev.get("ev") == "conv" and conv_known(ev["src"], ev["to"]) for ev in trace[1:])
+    for ev in trace[1:]:
+        c = ev.get("ev") == "conv" and conv_known(ev["src"], ev["to"])
+        if c:
+            return c
+    return None
 
 
 def describe(rj):
@@ -140,24 +144,53 @@ def describe(rj):
     return "event not explained: %s" % json.dumps(ev)[:400]
 
 
-def judge_twice(ctx, module, cfg, cfg_pinned, clean, exposed, label, classify, chunk):
-    """clean traces: contract only.  exposed traces: contract (known class => KNOWN-FINDING), then the
-    pinned configuration (any rejection => VIOLATION)."""
-    rj = ctx.validate(FAM, module, cfg, clean, label=label, chunk=chunk)
-    if exposed:
-        saved = (ctx.traces_validated, ctx.events_validated)
-        r1 = ctx.validate(FAM, module, cfg, exposed, label=label + " (exposed to a known finding)",
-                          chunk=chunk, max_rejections=3)
+def judge_twice(ctx, module, cfg, cfg_pinned, traces, exposure, label, classify, chunk):
+    """Traces that cannot contain a known finding: contract only.  Traces exposed to a known finding, per
+    class: contract (a rejection of the known class => KNOWN-FINDING, any other => VIOLATION); if the
+    contract rejected something, all exposed traces are judged again by the pinned configuration (any
+    rejection => VIOLATION)."""
+    groups = {}
+    for t in traces:
+        groups.setdefault(exposure(t), []).append(t)
+    rj = ctx.validate(FAM, module, cfg, groups.pop(None, []), label=label, chunk=chunk)
+    exposed, hit = [], False
+    saved = (ctx.traces_validated, ctx.events_validated)
+    for c in sorted(groups):
+        r1 = ctx.validate(FAM, module, cfg, groups[c], label="%s (exposed to known finding class %s)" % (label, c),
+                          chunk=chunk, max_rejections=2)
         for r in r1:
-            c = classify(r)
-            if c:
-                r["event"] = dict(r["event"], **{"class": c})
+            k = classify(r)
+            if k:
+                r["event"] = dict(r["event"], **{"class": k})
         rj += r1
-        if r1:
-            ctx.traces_validated, ctx.events_validated = saved
-            rj += ctx.validate(FAM, module, cfg_pinned, exposed, label=label + " (pinned: known deviation described)",
-                               chunk=chunk)
-    return rj
+        hit = hit or bool(r1)
+        exposed += groups[c]
+    if hit:
+        ctx.traces_validated, ctx.events_validated = saved
+        rj += ctx.validate(FAM, module, cfg_pinned, exposed, label=label + " (pinned: known deviation described)",
+                           chunk=chunk)
+    return rj, len(exposed)
+
+
+def keep_known_replays(ctx, rj):
+    """The rejected trace of every known finding is kept as a replay (extras/replays/<id>.json, written
+    only if absent): `./check X02 --replay extras/replays/X02-F1.json` re-validates it."""
+    d = os.path.join(ROOT, "extras", "replays")
+    for r in rj:
+        c = r["event"].get("class")
+        f = [k for k in ctx.findings if k.get("match", {}).get("event", {}).get("class") == c]
+        if not c or not f:
+            continue
+        path = os.path.join(d, f[0]["id"] + ".json")
+        if os.path.exists(path):
+            continue
+        os.makedirs(d, exist_ok=True)
+        ev = {k: v for k, v in r["event"].items() if k != "class"}
+        with open(path, "w") as fh:
+            json.dump({"property": ctx.pid, "finding": f[0]["id"], "seed": ctx.seed, "tier": ctx.tier,
+                       "rejected_line": r["line"], "rejected_event": ev, "label": r.get("label", ""),
+                       "validate_with": r.get("how", {}), "explanation": describe(r), "trace": r["trace"]},
+                      fh, indent=1)
 
 
 def run(ctx):
@@ -179,7 +212,7 @@ def run(ctx):
         ctx.tlc_mc(FAM, "Slices", "Slices_MC_big.cfg", workers=16, timeout=3000)
         ctx.tlc_mc(FAM, "Conv_MC", "Conv_MC_big.cfg", workers=8, timeout=3000)
     # 2. plans out of the specs
-    mdir, mplans = ctx.tlc_plans(FAM, "Containers_Gen", "Containers_Gen.cfg", num=ctx.q(200, 2500), depth=18,
+    mdir, mplans = ctx.tlc_plans(FAM, "Containers_Gen", "Containers_Gen.cfg", num=ctx.q(250, 2500), depth=18,
                                  sub="mplans")
     sdir, splans = ctx.tlc_plans(FAM, "Slices_Gen", "Slices_Gen.cfg", num=ctx.q(200, 2500), depth=16,
                                  sub="splans", seed_off=1)
@@ -192,20 +225,19 @@ def run(ctx):
                       traces=[mt, st, ct])
     maps, seqs, conv = ctx.load_traces(mt), ctx.load_traces(st), ctx.load_traces(ct)
     # 4. validate what the real code did
-    m_exp = [t for t in maps if map_exposed(t)]
-    m_clean = [t for t in maps if not map_exposed(t)]
-    c_exp = [t for t in conv if conv_exposed(t)]
-    c_clean = [t for t in conv if not conv_exposed(t)]
-    rj = judge_twice(ctx, "Containers_Trace", "Containers_Trace.cfg", "Containers_Trace_pinned.cfg",
-                     m_clean, m_exp, "maps", map_class, 12000)
+    rj, m_exp = judge_twice(ctx, "Containers_Trace", "Containers_Trace.cfg", "Containers_Trace_pinned.cfg",
+                            maps, map_exposed, "maps", map_class, 12000)
     rj += ctx.validate(FAM, "Slices_Trace", "Slices_Trace.cfg", seqs, label="slices+strings", chunk=20000)
-    rj += judge_twice(ctx, "Conv_Trace", "Conv_Trace.cfg", "Conv_Trace_pinned.cfg", c_clean, c_exp, "conversions",
-                      lambda r: conv_known(r["event"]["src"], r["event"]["to"]) if r["event"].get("ev") == "conv" else None,
-                      30000)
+    r2, c_exp = judge_twice(ctx, "Conv_Trace", "Conv_Trace.cfg", "Conv_Trace_pinned.cfg", conv, conv_exposed,
+                            "conversions",
+                            lambda r: (conv_known(r["event"]["src"], r["event"]["to"])
+                                       if r["event"].get("ev") == "conv" else None), 30000)
+    rj += r2
+    keep_known_replays(ctx, rj)
     ctx.judge(rj, describe=describe)
     ctx.extra["plans"] = {"maps": len(mplans), "slices": len(splans)}
-    ctx.extra["traces"] = {"maps": len(maps), "maps_exposed_to_known_finding": len(m_exp), "slices_strings": len(seqs),
-                           "conversions": len(conv), "conversions_exposed_to_known_finding": len(c_exp)}
+    ctx.extra["traces"] = {"maps": len(maps), "maps_exposed_to_known_finding": m_exp, "slices_strings": len(seqs),
+                           "conversions": len(conv), "conversions_exposed_to_known_finding": c_exp}
     ctx.extra["harness_summary"] = out.strip().splitlines()[-1] if out.strip() else ""
     ctx.assumptions += [
         "maps: the harness never stores one handle's nested map in another handle itself, so every sharing "
